@@ -96,8 +96,8 @@ func (p *pktConnect) Pack() []byte {
 }
 
 func (c *BaseClient) init() {
-	c.sig = &signaller{}
 	c.mu.Lock()
+	c.sig = &signaller{}
 	c.connClosed = make(chan struct{})
 	c.mu.Unlock()
 	c.initID()
@@ -113,9 +113,10 @@ func (c *BaseClient) Connect(ctx context.Context, clientID string, opts ...Conne
 			return false, wrapError(err, "applying options")
 		}
 	}
-	c.init()
+	// Requests issued meanwhile wait for the end of Connect.
 	c.muConnecting.Lock()
 	defer c.muConnecting.Unlock()
+	c.init()
 
 	go func() {
 		err := c.serve()
